@@ -302,7 +302,7 @@ theorem closure_keeps_last_evaluation (c : Cfg) (lossId idx : Nat) (shifts : Lis
 
 /-- non-vacuity / regression witness: three evaluations of a constant-1 metric in one closure step count once -/
 example :
-    let c : Cfg := { loss := fun _ _ _ _ => 6, metric := fun _ _ _ _ => 1, nMetrics := 1,
+    let c : Cfg := { userLoss := fun _ _ _ _ => 6, metric := fun _ _ _ _ => 1, nMetrics := 1,
                      plainStep := fun _ => 0, closureShifts := fun _ => [1, 1, 1] }
     (trainEpoch c (init 0 .closure 2 1 1)).trainMetric = [[1]] := by decide
 
